@@ -930,6 +930,18 @@ fn native_spec() {
             let h2: Vec<&str> = if nb { vec!["reload", "extra"] } else { vec!["ctl", "reload", "extra"] };
             let _ = used.try_get_matches_from_mut(h1);
             let _ = used.try_get_matches_from_mut(h2);
+            // a failing parse with an unknown long flag builds every subcommand (for the "did you mean" search)
+            let _ = used.try_get_matches_from_mut(if nb { vec!["--zzqq"] } else { vec!["ctl", "--zzqq"] });
+            // the usage shown by an error inside a subcommand is the same for a reused and a fresh definition
+            let probe: Vec<&str> = if nb { vec!["status", "--zzbogus"] } else { vec!["ctl", "x", "status", "--zzbogus"] };
+            let mut fresh2 = mk();
+            let _ = fresh2.try_get_matches_from_mut(if nb { vec!["--zzqq"] } else { vec!["ctl", "--zzqq"] });
+            let e_fresh = mk().try_get_matches_from(probe.clone()).map(|_| String::new()).unwrap_or_else(|e| e.to_string());
+            let e_used = fresh2.try_get_matches_from_mut(probe.clone()).map(|_| String::new()).unwrap_or_else(|e| e.to_string());
+            if e_fresh != e_used && !nb {
+                let diff = e_fresh.lines().zip(e_used.lines()).find(|(a, b)| a != b).map(|(a, b)| format!("{a:?} vs {b:?}")).unwrap_or_default();
+                println!("SPEC-REPLAY MISMATCH target=bin_name_twins case={what}: the error for {probe:?} after an earlier failing parse differs from a fresh definition's: {diff}");
+            }
             let after = used.render_help().to_string();
             let after_long = used.clone().render_long_help().to_string();
             if fresh != after || fresh_long != after_long {
